@@ -148,9 +148,15 @@ impl Env {
                     // `redo ../x` run from p/sub as the first command ever put the database
                     // into p/sub/.redo; the next command run from p then created a second
                     // one, in which x was unknown and was taken for a source.)
-                    Some(par) => dirs.push(
-                        helpers::normpath(&helpers::abs_path(&cwd, &par)).into_owned(),
-                    ),
+                    // (... and resolved where it exists: a symbolic link outside the project
+                    // that leads back into it -- `../lp/x` with ../lp -> this directory -- is
+                    // no reason to look for the database above both.  With the link taken
+                    // as written, a second database appeared in the directory that holds
+                    // the link, in which the target was unknown.)
+                    Some(par) => {
+                        let d = helpers::normpath(&helpers::abs_path(&cwd, &par)).into_owned();
+                        dirs.push(d.canonicalize().unwrap_or(d))
+                    }
                     None => {
                         return Err(
                             RedoErrorKind::InvalidTarget(t.as_os_str().to_os_string()).into()
